@@ -17,31 +17,12 @@ def SameBackend (s s' : St V) : Prop :=
 
 theorem SameBackend.rfl' (s : St V) : SameBackend s s := ⟨rfl, rfl, rfl, rfl, rfl⟩
 
-/-- a save that does not end with a longer backend has not touched the backend at all -/
-theorem save_backend (P : Params V) (L : Layout) (hL : L.Pos) (d0 d : Doc V) (chain0) (hb : BaseOK d0 chain0)
-    (hi : Inv d0 d) (h : (save P L d).1.st.len = d.st.len) : SameBackend d.st (save P L d).1.st := by
-  have pf := prep_facts d0 d chain0 hb hi
-  by_cases hsz : d.st.refs.length + 2 ≤ MAX_ID
-  case neg => rw [save_too_big P L d (by omega)]; exact SameBackend.rfl' _
-  have hcommit : ∀ (w : Written V) (rows : List XRef) (tr : Trailer V) (o : Out SaveInfo),
-      writeChanges P L (prep d).st2.start (prep d).st2.changes ⟨(prep d).st2.refs, (prep d).st2.objs, (prep d).st2.len⟩
-        = (w, .ok ()) →
-      save P L d = (⟨commit P L d (prep d) w (w.refs.set (prep d).xid (.raw (w.len - (prep d).st2.start) 0)) rows, tr⟩, o) →
-      False := by
-    intro w rows tr o hw hs
-    obtain ⟨k1, _, _, _⟩ := writeChanges_ok P L _ hL.1 _ _ _ hw pf.inv.sorted pf.inv.objs_lt
-    simp only at k1
-    rw [hs] at h
-    simp only [commit] at h
-    have := hL.2 (saveInfoOf (prep d) w (w.refs.set (prep d).xid (.raw (w.len - (prep d).st2.start) 0)) rows)
-    have := pf.len_same
-    omega
-  rcases save_cases P L d0 d chain0 hb hi hsz with ⟨w, hw, hs⟩ | ⟨w, hw, hr, hs⟩ | ⟨w, rows, hw, hr, hs⟩
-  · rw [hs]; exact ⟨pf.objs_eq, pf.secs_eq, pf.len_same, pf.start_same, pf.sx_same⟩
-  · rw [hs]; exact ⟨pf.objs_eq, pf.secs_eq, pf.len_same, pf.start_same, pf.sx_same⟩
-  · rcases hs with ⟨i, tr, hs⟩ | ⟨_, hs⟩
-    · exact absurd (hcommit w rows tr _ hw hs) id
-    · exact absurd (hcommit w rows _ _ hw hs) id
+/-- a save that did not get as far as appending its revision has not touched the backend at all -/
+theorem save_backend (P : Params V) (L : Layout) (d0 d : Doc V) (chain0) (hb : BaseOK d0 chain0)
+    (hi : Inv d0 d) (h : commitInfo P L d = none) : SameBackend d.st (save P L d).1.st := by
+  rcases commitInfo_none P L d0 d chain0 hb hi h with ⟨h1, h2, h3, h4, h5, _⟩ | h
+  · exact ⟨h1, h2, h3, h4, h5⟩
+  · rw [h]; exact SameBackend.rfl' _
 
 theorem update_backend (st : St V) (id : Nat) (v : V) : SameBackend st (update st id v).1 := by
   unfold update
@@ -78,57 +59,44 @@ open Storage PdfLex Xref
 
 variable {R : Type}
 
-/-- `saveB` is `save` on the document; the bytes grow by the revision in a successful save only -/
-theorem saveB_cases (fmt : R → List UInt8) (b b' : BDoc R) (o : Out SaveInfo) (h : saveB fmt b = (b', o)) :
-    save (params fmt b.ids) (layoutOf fmt b) b.doc = (b'.doc, o) ∧ b'.ids = b.ids ∧
-      ((∃ i, o = .ok i ∧ b'.bytes = b.bytes ++ revisionBytes fmt b i) ∨ ((∀ i, o ≠ .ok i) ∧ b'.bytes = b.bytes)) := by
-  unfold saveB at h
-  generalize hs : save (params fmt b.ids) (layoutOf fmt b) b.doc = res at h
-  obtain ⟨d', o'⟩ := res
-  cases o' <;> simp only [Prod.mk.injEq] at h <;> obtain ⟨rfl, rfl⟩ := h
-  · exact ⟨rfl, rfl, Or.inl ⟨_, rfl, rfl⟩⟩
-  · exact ⟨rfl, rfl, Or.inr ⟨by simp, rfl⟩⟩
-  · exact ⟨rfl, rfl, Or.inr ⟨by simp, rfl⟩⟩
-  · exact ⟨rfl, rfl, Or.inr ⟨by simp, rfl⟩⟩
+theorem toOp_layout (op : OpB R) (h : ∀ t, op ≠ .save t) (L L' : Layout) : op.toOp L = op.toOp L' := by
+  cases op <;> first | rfl | exact absurd rfl (h _)
 
-theorem toOp_layout (op : OpB R) (h : op ≠ .save) (L L' : Layout) : op.toOp L = op.toOp L' := by
-  cases op <;> first | rfl | exact absurd rfl h
-
-theorem toOp_not_save (op : OpB R) (h : op ≠ .save) (L L' : Layout) : op.toOp L ≠ .save L' := by
-  cases op <;> first | exact absurd rfl h | (simp [OpB.toOp])
+theorem toOp_not_save (op : OpB R) (h : ∀ t, op ≠ .save t) (L L' : Layout) : op.toOp L ≠ .save L' := by
+  cases op <;> first | exact absurd rfl (h _) | (simp [OpB.toOp])
 
 /-- one step at byte level is the step of the abstract model with the layout the values give a `save` -/
 theorem stepB_step (fmt : R → List UInt8) (b : BDoc R) (op : OpB R) :
-    (stepB fmt b op).1.doc = (step (params fmt b.ids) b.doc (op.toOp (layoutOf fmt b))).1 ∧
-    (stepB fmt b op).2 = (step (params fmt b.ids) b.doc (op.toOp (layoutOf fmt b))).2 ∧
+    (stepB fmt b op).1.doc = (step (params fmt b.ids) b.doc (op.toOp (layoutOf fmt op.typed b))).1 ∧
+    (stepB fmt b op).2 = (step (params fmt b.ids) b.doc (op.toOp (layoutOf fmt op.typed b))).2 ∧
     (stepB fmt b op).1.ids = b.ids := by
-  by_cases hop : op = .save
-  · subst hop
-    simp only [stepB, OpB.toOp, step]
-    generalize hs : saveB fmt b = res
+  cases op with
+  | save t =>
+    simp only [stepB, OpB.toOp, step, OpB.typed]
+    generalize hs : saveB fmt t b = res
     obtain ⟨b', o⟩ := res
-    obtain ⟨h1, h2, _⟩ := saveB_cases fmt b b' o hs
+    obtain ⟨h1, h2, _⟩ := saveB_cases fmt t b b' o hs
     rw [h1]
     cases o <;> exact ⟨rfl, rfl, h2⟩
-  · cases op <;> first | exact absurd rfl hop | exact ⟨rfl, rfl, rfl⟩
+  | _ => exact ⟨rfl, rfl, rfl⟩
 
-/-- the bytes after one step: unchanged, or grown by the revision of a successful save -/
+/-- the bytes after one step: unchanged, or grown by the revision of a save that wrote one -/
 theorem stepB_bytes (fmt : R → List UInt8) (b : BDoc R) (op : OpB R) :
     (stepB fmt b op).1.bytes = b.bytes ∨
-      (op = .save ∧ ∃ i, saveB fmt b = ((stepB fmt b op).1, .ok i)) := by
-  by_cases hop : op = .save
-  · subst hop
-    simp only [stepB]
-    generalize hs : saveB fmt b = res
+      (∃ t i o, op = .save t ∧ saveB fmt t b = ((stepB fmt b op).1, o) ∧
+        commitInfo (params fmt b.ids) (layoutOf fmt t b) b.doc = some i ∧
+        (stepB fmt b op).1.bytes = b.bytes ++ revisionBytes fmt b i) := by
+  cases op with
+  | save t =>
+    generalize hs : saveB fmt t b = res
     obtain ⟨b', o⟩ := res
-    obtain ⟨_, _, h3⟩ := saveB_cases fmt b b' o hs
-    cases o with
-    | ok i => right; exact ⟨trivial, i, rfl⟩
-    | err => left; rcases h3 with ⟨i, hi, _⟩ | ⟨_, h⟩ <;> simp_all
-    | panic => left; rcases h3 with ⟨i, hi, _⟩ | ⟨_, h⟩ <;> simp_all
-    | oof => left; rcases h3 with ⟨i, hi, _⟩ | ⟨_, h⟩ <;> simp_all
-  · left
-    cases op <;> first | exact absurd rfl hop | rfl
+    have hst : (stepB fmt b (.save t)).1 = b' := by simp only [stepB, hs]; cases o <;> rfl
+    rw [hst]
+    obtain ⟨_, _, h3⟩ := saveB_cases fmt t b b' o hs
+    rcases h3 with ⟨i, hi, hb⟩ | ⟨_, hb⟩
+    · right; exact ⟨t, i, o, rfl, hs, hi, hb⟩
+    · left; exact hb
+  | _ => left; rfl
 
 theorem runB_run (fmt : R → List UInt8) : ∀ (ops : List (OpB R)) (b : BDoc R),
     (runB fmt b ops).1.doc = (run (params fmt b.ids) b.doc (liftOps fmt b ops)).1 ∧
@@ -214,10 +182,10 @@ theorem gen_lt_of_fields (e : XRef) (h : FieldsOK e) : gen e < U64 := by
 
 /-- the cross-reference stream object is the last record of the revision -/
 theorem save_objs_le (P : Params V) (L : Layout) (hL : L.Pos) (d0 d d' : Doc V) (chain0) (i : SaveInfo)
-    (hb : BaseOK d0 chain0) (hi : Inv d0 d) (h : save P L d = (d', .ok i)) :
+    (hb : BaseOK d0 chain0) (hi : Inv d0 d) (h : Committed P L d d'.st i) :
     ∀ o ∈ d'.st.objs, o.off ≤ d.st.start + i.xpos := by
   have pf := prep_facts d0 d chain0 hb hi
-  obtain ⟨w, rows, hw, hr, hst, _, _, hxpos, _, _, _⟩ := save_ok_spec P L d d' i h
+  obtain ⟨w, rows, hw, hr, hst, _, _, hxpos, _, _, _⟩ := h.spec'
   obtain ⟨k1, _, k4, _⟩ := writeChanges_ok P L _ hL.1 _ _ _ hw pf.inv.sorted pf.inv.objs_lt
   simp only at k1 k4
   have hstart : (prep d).st2.start ≤ (prep d).st2.len := by
@@ -234,12 +202,12 @@ theorem save_objs_le (P : Params V) (L : Layout) (hL : L.Pos) (d0 d d' : Doc V) 
 /-- the table a successful save leaves behind has fields below 2⁶⁴, provided the base table has and the
     file stays below 2⁶⁴ bytes -/
 theorem widths_le_8 (P : Params V) (L : Layout) (hL : L.Pos) (d0 d d' : Doc V) (chain0) (i : SaveInfo)
-    (hb : BaseOK d0 chain0) (hi : Inv d0 d) (h : save P L d = (d', .ok i))
+    (hb : BaseOK d0 chain0) (hi : Inv d0 d) (h : Committed P L d d'.st i) (htr : d'.tr = d.tr)
     (hf0 : ∀ e ∈ d0.st.refs, FieldsOK e) (hlen : d.st.start + i.xpos < U64) : i.aw ≤ 8 ∧ i.bw ≤ 8 := by
-  have sh := save_shape P L hL d0 d d' chain0 i hb hi h
+  have sh := save_shape_c P L hL d0 d d' chain0 i hb hi h
   have hle := save_objs_le P L hL d0 d d' chain0 i hb hi h
-  have hi' := inv_save_ok P L hL d0 d d' chain0 i hb hi h
-  have hw := save_ok_widths P L d d' i h
+  have hi' := inv_committed P L hL d0 d d' chain0 i hb hi h htr
+  have hw := save_ok_widths_c P L d d' i h
   have hall : ∀ e ∈ d'.st.refs, e = .promised ∨ FieldsOK e := by
     intro e he
     obtain ⟨j, hj⟩ := List.getElem?_of_mem he
@@ -288,10 +256,11 @@ open Xref
 
 variable {V : Type}
 
-/-- where a pending value of the state after `save` (whatever its outcome) comes from -/
+/-- `v` is the cross-reference stream a save that wrote its revision left pending -/
 def XrefLeft (P : Params V) (L : Layout) (d : Doc V) (v : V) : Prop :=
-  ∃ i, v = P.xrefVal i ∧ ((save P L d).2 = .ok i ∨ ((∀ i', (save P L d).2 ≠ .ok i') ∧ d.st.len < (save P L d).1.st.len))
+  ∃ i, v = P.xrefVal i ∧ Committed P L d (save P L d).1.st i ∧ (save P L d).1.tr = d.tr
 
+/-- where a pending value of the state after `save` (whatever its outcome) comes from -/
 theorem save_changes (P : Params V) (L : Layout) (hL : L.Pos) (d0 d : Doc V) (chain0) (hb : BaseOK d0 chain0) (hi : Inv d0 d)
     (j : Nat) (v : V) (g : Nat) (h : chLookup (save P L d).1.st.changes j = some (v, g)) :
     chLookup d.st.changes j = some (v, g) ∨ d.tr.info = some v ∨ XrefLeft P L d v := by
@@ -315,43 +284,17 @@ theorem save_changes (P : Params V) (L : Layout) (hL : L.Pos) (d0 d : Doc V) (ch
         = (w, .ok ()) →
       rowsOf ((w.refs.set (prep d).xid (.raw (w.len - (prep d).st2.start) 0)).take ((prep d).xid + 1)) = some rows →
       save P L d = (⟨commit P L d (prep d) w (w.refs.set (prep d).xid (.raw (w.len - (prep d).st2.start) 0)) rows, tr⟩, o) →
+      tr = d.tr →
       chLookup d.st.changes j = some (v, g) ∨ d.tr.info = some v ∨ XrefLeft P L d v := by
-    intro w rows tr o hw hr hs
+    intro w rows tr o hw hr hs htr
     have hs0 := hs
     rw [hs] at h
     simp only [commit, chLookup_chInsert] at h
     split at h
     · simp only [Option.some.injEq, Prod.mk.injEq] at h
-      refine Or.inr (Or.inr ⟨_, h.1.symm, ?_⟩)
-      cases o with
-      | ok i =>
-        left
-        rw [hs0]; simp only
-        rw [save_ok_info P L d _ i hs0 w rows hw hr]
-      | err =>
-        right
-        obtain ⟨k1, _, _, _⟩ := writeChanges_ok P L _ hL.1 _ _ _ hw pf.inv.sorted pf.inv.objs_lt
-        simp only at k1
-        have := hL.2 (saveInfoOf (prep d) w (w.refs.set (prep d).xid (.raw (w.len - (prep d).st2.start) 0)) rows)
-        have := pf.len_same
-        rw [hs0]; simp only [commit]
-        exact ⟨by simp, by omega⟩
-      | panic =>
-        right
-        obtain ⟨k1, _, _, _⟩ := writeChanges_ok P L _ hL.1 _ _ _ hw pf.inv.sorted pf.inv.objs_lt
-        simp only at k1
-        have := hL.2 (saveInfoOf (prep d) w (w.refs.set (prep d).xid (.raw (w.len - (prep d).st2.start) 0)) rows)
-        have := pf.len_same
-        rw [hs0]; simp only [commit]
-        exact ⟨by simp, by omega⟩
-      | oof =>
-        right
-        obtain ⟨k1, _, _, _⟩ := writeChanges_ok P L _ hL.1 _ _ _ hw pf.inv.sorted pf.inv.objs_lt
-        simp only at k1
-        have := hL.2 (saveInfoOf (prep d) w (w.refs.set (prep d).xid (.raw (w.len - (prep d).st2.start) 0)) rows)
-        have := pf.len_same
-        rw [hs0]; simp only [commit]
-        exact ⟨by simp, by omega⟩
+      refine Or.inr (Or.inr ⟨_, h.1.symm, ?_, ?_⟩)
+      · rw [hs0]; exact ⟨w, rows, hw, hr, rfl, rfl, hsz⟩
+      · rw [hs0]; exact htr
     · rcases hst2 j v g h with h' | h'
       · exact Or.inl h'
       · exact Or.inr (Or.inl h')
@@ -365,8 +308,10 @@ theorem save_changes (P : Params V) (L : Layout) (hL : L.Pos) (d0 d : Doc V) (ch
     · exact Or.inl h'
     · exact Or.inr (Or.inl h')
   · rcases hs with ⟨i, tr, hs⟩ | ⟨_, hs⟩
-    · exact hcommit w rows tr _ hw hr hs
-    · exact hcommit w rows _ _ hw hr hs
+    · exact hcommit w rows tr _ hw hr hs (by
+        have := save_tr_eq P L d0 d _ chain0 i hb hi hs
+        exact this)
+    · exact hcommit w rows _ _ hw hr hs rfl
 
 /-- where a pending value of the state after one operation comes from -/
 theorem step_changes (P : Params V) (d0 d : Doc V) (chain0) (hb : BaseOK d0 chain0) (hi : Inv d0 d) (op : Op V)
@@ -446,15 +391,15 @@ structure BaseVals (fmt : R → List UInt8) (pr : List UInt8 → Option R) (d0 :
   fields : ∀ e ∈ d0.st.refs, FieldsOK e
 
 /-- the limits under which the cross-reference stream object is proved to round-trip hold for every
-    successful save of a file that stays below 2³¹ bytes -/
+    revision written to a file that stays below 2³¹ bytes -/
 theorem bounds_of_save (fmt : R → List UInt8) (pr : List UInt8 → Option R) (P : Params (Prim R)) (L : Layout) (hL : L.Pos)
     (d0 d d' : Doc (Prim R)) (chain0) (i : SaveInfo) (hb : BaseOK d0 chain0) (hi : Inv d0 d)
-    (h : save P L d = (d', .ok i)) (hv : BaseVals fmt pr d0) (hlen : d.st.start + i.xpos ≤ fileMax) :
+    (h : Committed P L d d'.st i) (htr : d'.tr = d.tr) (hv : BaseVals fmt pr d0) (hlen : d.st.start + i.xpos ≤ fileMax) :
     Bounds d.tr (prep d).infoRef i := by
   have pf := prep_facts d0 d chain0 hb hi
-  have sh := save_shape P L hL d0 d d' chain0 i hb hi h
-  obtain ⟨_, _, _, _, _, _, _, _, hsize, _, hmax⟩ := save_ok_spec P L d d' i h
-  obtain ⟨ha, hbw⟩ := widths_le_8 P L hL d0 d d' chain0 i hb hi h hv.fields (by unfold fileMax at hlen; unfold Storage.U64; omega)
+  have sh := save_shape_c P L hL d0 d d' chain0 i hb hi h
+  obtain ⟨_, _, _, _, _, _, _, _, hsize, _, hmax⟩ := h.spec'
+  obtain ⟨ha, hbw⟩ := widths_le_8 P L hL d0 d d' chain0 i hb hi h htr hv.fields (by unfold fileMax at hlen; unfold Storage.U64; omega)
   have hsz : i.size ≤ 1000000 := by rw [hsize, pf.size_eq]; unfold MAX_ID at hmax; exact hmax
   refine ⟨ha, hbw, by have := sh.rows_len; omega, hsz, ?_, ?_, ?_⟩
   · rw [hi.tr_eq]; exact hv.prev
@@ -477,14 +422,12 @@ structure HInv (fmt : R → List UInt8) (env : Env R) (pfuel : Nat) (dec : Dict 
   ch : ∀ j v g, chLookup b.doc.st.changes j = some (v, g) → OKVal fmt env.parseReal v
   ids : b.ids = b0.ids
 
-/-- what is asked of one operation: the values written are within the limits of the round-trip theorems; a save
-    that fails does so before anything is written (not covered: `Trailer::from_dict` failing after the revision
-    was appended, i.e. the catalog no longer resolves) -/
-def GoodOp (fmt : R → List UInt8) (pr : List UInt8 → Option R) (b : BDoc R) : OpB R → Prop
+/-- what is asked of one operation: the values written are within the limits of the round-trip theorems. Nothing is
+    asked of a `save`: it may succeed, fail before anything is written, or fail after its revision was appended. -/
+def GoodOp (fmt : R → List UInt8) (pr : List UInt8 → Option R) (_b : BDoc R) : OpB R → Prop
   | .create v => OKVal fmt pr v
   | .update _ v => OKVal fmt pr v
   | .fulfil _ v => OKVal fmt pr v
-  | .save => ∀ b' o, saveB fmt b = (b', o) → (∀ i, o ≠ .ok i) → b'.doc.st.len = b.doc.st.len
   | _ => True
 
 def GoodHist (fmt : R → List UInt8) (pr : List UInt8 → Option R) : BDoc R → List (OpB R) → Prop
@@ -537,17 +480,34 @@ theorem hinv_stepB (fmt : R → List UInt8) (env : Env R) (hd : env.decrypt = no
     (hsmall : (stepB fmt b op).1.bytes.length ≤ fileMax) (hpf : 3 * (stepB fmt b op).1.bytes.length ≤ pfuel) :
     HInv fmt env pfuel dec b0 (stepB fmt b op).1 := by
   obtain ⟨s1, s2, s3⟩ := stepB_step fmt b op
-  have hLpos := layoutOf_pos fmt b
-  have hopok : OpOK (op.toOp (layoutOf fmt b)) := by cases op <;> first | trivial | exact hLpos
+  have hLpos := layoutOf_pos fmt op.typed b
+  have hopok : OpOK (op.toOp (layoutOf fmt op.typed b)) := by cases op <;> first | trivial | exact hLpos
   have hinv' : Inv b0.doc (stepB fmt b op).1.doc := by
     rw [s1]; exact step_inv _ b0.doc b.doc chain0 hb h.inv _ hopok
-  -- the outcome of a save, as `saveB` and as `save`
-  have hsave : op = .save → ∀ b' o, saveB fmt b = (b', o) →
-      (stepB fmt b op).1 = b' ∧ save (params fmt b.ids) (layoutOf fmt b) b.doc = (b'.doc, o) := by
-    intro hop b' o hs
+  -- a save that wrote its revision: the facts about the bytes
+  have hcommitted : ∀ t i, op = .save t →
+      Committed (params fmt b.ids) (layoutOf fmt t b) b.doc (save (params fmt b.ids) (layoutOf fmt t b) b.doc).1.st i →
+      CommittedB fmt t b (stepB fmt b op).1 i ∧ Bounds b.doc.tr (prep b.doc).infoRef i := by
+    intro t i hop hc
     subst hop
-    refine ⟨?_, (saveB_cases fmt b b' o hs).1⟩
-    simp only [stepB, hs]; cases o <;> rfl
+    generalize hs : saveB fmt t b = res
+    obtain ⟨b', o⟩ := res
+    have hst : (stepB fmt b (.save t)).1 = b' := by simp only [stepB, hs]; cases o <;> rfl
+    rw [hst] at hinv' ⊢
+    obtain ⟨e1, e2, e3⟩ := saveB_cases fmt t b b' o hs
+    rw [e1] at hc
+    have hci := commitInfo_of_committed _ _ _ _ _ hc
+    have hcb : CommittedB fmt t b b' i := by
+      refine ⟨hc, e2, ?_⟩
+      rcases e3 with ⟨i', hi', hb'⟩ | ⟨hn, _⟩
+      · rw [hci] at hi'; cases hi'; exact hb'
+      · rw [hci] at hn; cases hn
+    have bk := saveB_backend fmt b0.doc chain0 b b' i hb h.inv h.rep.len t hcb
+    have htr : b'.doc.tr = b.doc.tr := by rw [hinv'.tr_eq, h.inv.tr_eq]
+    refine ⟨hcb, bounds_of_save fmt env.parseReal _ _ (layoutOf_pos fmt t b) b0.doc b.doc b'.doc chain0 i hb h.inv hc htr hv ?_⟩
+    have := bk.xpos_le
+    rw [hst] at hsmall
+    omega
   have hch' : ∀ j v g, chLookup (stepB fmt b op).1.doc.st.changes j = some (v, g) → OKVal fmt env.parseReal v := by
     intro j v g hc
     rw [s1] at hc
@@ -556,77 +516,54 @@ theorem hinv_stepB (fmt : R → List UInt8) (env : Env R) (hd : env.decrypt = no
     · cases op <;> simp [OpB.toOp] at h' <;> (subst h'; exact hg)
     · cases op <;> simp [OpB.toOp] at h' <;> (obtain ⟨_, rfl⟩ := h'; exact hg)
     · cases op <;> simp [OpB.toOp] at h' <;> (obtain ⟨_, rfl⟩ := h'; exact hg)
-    · rcases h'' with h'' | ⟨i, rfl, h''⟩
+    · rcases h'' with h'' | ⟨i, rfl, h'', _⟩
       · exact hv.info v (by rw [← h.inv.tr_eq]; exact h'')
-      · have hop : op = .save := by cases op <;> simp [OpB.toOp] at h' <;> rfl
-        have hLe : L = layoutOf fmt b := by subst hop; simp [OpB.toOp] at h'; exact h'.symm
-        subst hLe
-        generalize hs : saveB fmt b = res
-        obtain ⟨b', o⟩ := res
-        obtain ⟨e1, e2⟩ := hsave hop b' o hs
-        rw [e2] at h''
-        simp only at h''
-        rcases h'' with h'' | ⟨hno, hlt⟩
-        · subst h''
-          have bk := saveB_backend fmt b0.doc chain0 b b' i hb h.inv h.rep.len hs
-          have hbd := bounds_of_save fmt env.parseReal _ _ hLpos b0.doc b.doc b'.doc chain0 i hb h.inv e2 hv (by
-            have := bk.xpos_le; rw [← e1] at this; omega)
-          exact okVal_xrefStream fmt env.parseReal _ _ i hbd
-        · have := (hop ▸ hg) b' o hs hno
-          omega
+      · cases op <;> simp [OpB.toOp] at h'
+        rename_i t
+        subst h'
+        simp only [OpB.typed] at h''
+        exact okVal_xrefStream fmt env.parseReal _ _ i (hcommitted t i rfl h'').2
   refine ⟨hinv', ?_, hch', by rw [s3]; exact h.ids⟩
-  by_cases hop : op = .save
-  · generalize hs : saveB fmt b = res
-    obtain ⟨b', o⟩ := res
-    obtain ⟨e1, e2⟩ := hsave hop b' o hs
-    rw [e1] at hsmall hpf ⊢
-    cases o with
-    | ok i =>
-      have bk := saveB_backend fmt b0.doc chain0 b b' i hb h.inv h.rep.len hs
-      have hbd := bounds_of_save fmt env.parseReal _ _ hLpos b0.doc b.doc b'.doc chain0 i hb h.inv e2 hv (by
-        have := bk.xpos_le; omega)
-      obtain ⟨_, _, _, _, _, _, _, _, _, _, hmax⟩ := save_ok_spec _ _ _ _ _ e2
-      exact rep_saveB fmt env hd pfuel dec hdec b0.doc chain0 b b' i hb h.inv h.rep hs hbd
+  cases op with
+  | save t =>
+    cases hci : commitInfo (params fmt b.ids) (layoutOf fmt t b) b.doc with
+    | some i =>
+      obtain ⟨hc, _⟩ := commitInfo_some _ _ b0.doc b.doc chain0 hb h.inv i hci
+      obtain ⟨hcb, hbd⟩ := hcommitted t i rfl hc
+      obtain ⟨_, _, _, _, _, _, _, _, _, _, hmax⟩ := hc.spec'
+      exact rep_saveB fmt env hd pfuel dec hdec b0.doc chain0 b _ i hb h.inv h.rep t hcb hbd
         (prep_vals fmt env pfuel dec b0 b chain0 hb hv h hmax) hsmall hpf
-    | err =>
-      have hno : ∀ i, (Out.err : Out SaveInfo) ≠ .ok i := by simp
-      have hl := (hop ▸ hg) b' _ hs hno
-      have hbk := save_backend _ _ hLpos b0.doc b.doc chain0 hb h.inv (by rw [e2]; exact hl)
-      rw [e2] at hbk
-      rcases (saveB_cases fmt b b' _ hs).2.2 with ⟨i, hi, _⟩ | ⟨_, hbytes⟩
-      · cases hi
-      · rw [hbytes]; exact h.rep.of_same hbk
-    | panic =>
-      have hno : ∀ i, (Out.panic : Out SaveInfo) ≠ .ok i := by simp
-      have hl := (hop ▸ hg) b' _ hs hno
-      have hbk := save_backend _ _ hLpos b0.doc b.doc chain0 hb h.inv (by rw [e2]; exact hl)
-      rw [e2] at hbk
-      rcases (saveB_cases fmt b b' _ hs).2.2 with ⟨i, hi, _⟩ | ⟨_, hbytes⟩
-      · cases hi
-      · rw [hbytes]; exact h.rep.of_same hbk
-    | oof =>
-      have hno : ∀ i, (Out.oof : Out SaveInfo) ≠ .ok i := by simp
-      have hl := (hop ▸ hg) b' _ hs hno
-      have hbk := save_backend _ _ hLpos b0.doc b.doc chain0 hb h.inv (by rw [e2]; exact hl)
-      rw [e2] at hbk
-      rcases (saveB_cases fmt b b' _ hs).2.2 with ⟨i, hi, _⟩ | ⟨_, hbytes⟩
-      · cases hi
-      · rw [hbytes]; exact h.rep.of_same hbk
-  · have hbytes : (stepB fmt b op).1.bytes = b.bytes := by
-      rcases stepB_bytes fmt b op with hbt | ⟨hx, _⟩
-      · exact hbt
-      · exact absurd hx hop
-    have hbk := step_backend (params fmt b.ids) b.doc (op.toOp (layoutOf fmt b)) (fun L => toOp_not_save op hop _ L)
-    rw [← s1] at hbk
-    rw [hbytes]; exact h.rep.of_same hbk
+    | none =>
+      have hbk := save_backend _ _ b0.doc b.doc chain0 hb h.inv hci
+      have hbytes : (stepB fmt b (.save t)).1.bytes = b.bytes := by
+        rcases stepB_bytes fmt b (.save t) with hbt | ⟨t', i, o, ht, _, hi, _⟩
+        · exact hbt
+        · cases ht; rw [hci] at hi; cases hi
+      simp only [OpB.toOp, OpB.typed, step] at s1
+      have hdoc : (stepB fmt b (.save t)).1.doc.st = (save (params fmt b.ids) (layoutOf fmt t b) b.doc).1.st := by
+        rw [s1]
+        generalize save (params fmt b.ids) (layoutOf fmt t b) b.doc = r
+        obtain ⟨d', o⟩ := r
+        cases o <;> rfl
+      rw [hbytes, hdoc]; exact h.rep.of_same hbk
+  | create v =>
+    exact h.rep.of_same (step_backend (params fmt b.ids) b.doc (.create v) (fun L => by simp))
+  | update id v =>
+    exact h.rep.of_same (step_backend (params fmt b.ids) b.doc (.update id v) (fun L => by simp))
+  | promise =>
+    exact h.rep.of_same (step_backend (params fmt b.ids) b.doc .promise (fun L => by simp))
+  | fulfil id v =>
+    exact h.rep.of_same (step_backend (params fmt b.ids) b.doc (.fulfil id v) (fun L => by simp))
+  | get id =>
+    exact h.rep.of_same (step_backend (params fmt b.ids) b.doc (.get id) (fun L => by simp))
+  | resolve id =>
+    exact h.rep.of_same (step_backend (params fmt b.ids) b.doc (.resolve id) (fun L => by simp))
 
 theorem stepB_bytes_mono (fmt : R → List UInt8) (b : BDoc R) (op : OpB R) :
     b.bytes.length ≤ (stepB fmt b op).1.bytes.length := by
-  rcases stepB_bytes fmt b op with h | ⟨_, i, h⟩
+  rcases stepB_bytes fmt b op with h | ⟨_, _, _, _, _, _, h⟩
   · rw [h]; exact Nat.le_refl _
-  · rcases (saveB_cases fmt b _ _ h).2.2 with ⟨_, _, hb⟩ | ⟨hno, _⟩
-    · rw [hb]; simp
-    · exact absurd rfl (hno i)
+  · rw [h]; simp
 
 theorem runB_bytes_mono (fmt : R → List UInt8) : ∀ (ops : List (OpB R)) (b : BDoc R),
     b.bytes.length ≤ (runB fmt b ops).1.bytes.length := by
@@ -668,7 +605,7 @@ theorem liftOps_ok (fmt : R → List UInt8) : ∀ (ops : List (OpB R)) (b : BDoc
     intro b op h
     simp only [liftOps, List.mem_cons] at h
     rcases h with rfl | h
-    · cases o <;> first | trivial | exact layoutOf_pos fmt b
+    · cases o <;> first | trivial | exact layoutOf_pos fmt _ b
     · exact ih _ op h
 
 end RepBytes
